@@ -17,7 +17,7 @@ RULE = ('2-3 real threads, each with its own compiled workbook and program (iter
         'evaluation with per-thread iterations/tolerance and a PROBE pass counter; array-formula '
         'evaluation that needs expanding / trimming / NA-filling; plain set_value/evaluate '
         'history; from_file of plain and iterative models; set_value + trim_graph; acyclic book '
-        'in iterative mode; in 3 percent of the randomly scheduled runs a 400-cell chain that '
+        'in iterative mode; in 3 percent of the randomly scheduled runs of the thorough tier a 400-cell chain that '
         'exhausts the interpreter\'s recursion limit and has to fail the same way next to other '
         'threads), models built inside or outside the thread, threads fresh or '
         'warmed-up with another workbook, started as plain threading.Thread or (a quarter of the '
@@ -274,8 +274,8 @@ def gen_case(rnd, tier, index):
         kinds = [rnd.choice(KINDS) for _ in range(n)]
         if kf4:
             kinds = ['cellfn', 'cellfn'] + kinds[2:]
-        elif rnd.random() < 0.03:
-            kinds[rnd.randrange(n)] = 'deep'
+        elif tier == 'thorough' and rnd.random() < 0.03:
+            kinds[rnd.randrange(n)] = 'deep'      # (a failing evaluation of that depth: seconds)
         programs = [draw_program(rnd, f'T{i}', k) for i, k in enumerate(kinds)]
         names = [pr['name'] for pr in programs]
         line = (not kf4) and rnd.random() < 0.25 and 'deep' not in kinds
@@ -345,6 +345,9 @@ def execute(prog, model_or_path, tmp, suffix, yield_point=None):
     from pycel import ExcelCompiler
     out = []
     log = plugin.STATE['probe_log']
+    if plugin.STATE.get('env_log') is None:
+        plugin.STATE['env_log'] = []
+    env_log = plugin.STATE['env_log']
     prefix = prog['name'] + ':'
 
     def yp(what):
@@ -372,6 +375,7 @@ def execute(prog, model_or_path, tmp, suffix, yield_point=None):
     for op in prog['ops']:
         yp('op')
         start = len(log)
+        env_start = len(env_log)
         k = op['op']
         if k == 'eval':
             arg = op['rng'] if op.get('form') == 'range' else op['a']
@@ -404,6 +408,11 @@ def execute(prog, model_or_path, tmp, suffix, yield_point=None):
                 calls[tag] = calls.get(tag, 0) + 1
         if calls:
             res['passes'] = sorted(calls.items())
+        envs = sorted({repr(e) for tag, e in env_log[env_start:] if tag.startswith(prefix)})
+        if envs:
+            # the settings this thread's formulas saw while they were being evaluated
+            res['settings'] = [hashlib.sha256(e.encode()).hexdigest()[:8] for e in envs] \
+                if len(envs) == 1 else envs
         out.append(res)
     # what the thread built, not only what it returned: the cells and the edges of its model
     try:
